@@ -1,4 +1,4 @@
-"""pyvc.solve -- solver portfolio, two-stage quantifier treatment, parallel discharge.
+"""pvc.solve -- solver portfolio, two-stage quantifier treatment, parallel discharge.
 
 Verdicts per obligation:
   proved      : full VC unsat (stage 1), or the instantiated QF weakening unsat (stage 2; still sound: fewer hypotheses)
